@@ -432,8 +432,10 @@ ocp.set_der(v, a)
         lbs = defaultdict(list)
         ubs = defaultdict(list)
         canons = defaultdict(list)
-        for c, meta, args in stage._constraints["control"]:
-            key = (args["refine"],args["group_refine"],args["include_first"],args["include_last"])
+        for i, (c, meta, args) in enumerate(stage._constraints["control"]):
+            # A constraint with shifted operands (next/prev/offset) lives on a trimmed grid: keep it out of the lumps
+            has_offsets = any(s in stage._offsets for s in ca.symvar(c))
+            key = (args["refine"],args["group_refine"],args["include_first"],args["include_last"],i if has_offsets else None)
             (lb,canon,ub), mc = self.constraint_inspector.canon(c)
 
             lbs[key].append(lb)
@@ -444,7 +446,7 @@ ocp.set_der(v, a)
 
         # Loop over lumps
         for k in keys:
-            (refine,group_refine,include_first,include_last) = k
+            (refine,group_refine,include_first,include_last,_) = k
             lb = ca.vcat(lbs[k])
             ub = ca.vcat(ubs[k])
             canon = ca.vcat(canons[k])
